@@ -591,6 +591,8 @@ func cmdHarness(args []string) int {
 			for _, k := range strings.Split(a[8:], ",") {
 				cfg.KnownIDs[k] = true
 			}
+		case strings.HasPrefix(a, "--keep="):
+			cfg.KeepPerSite, _ = strconv.Atoi(a[7:])
 		case a == "--gor":
 			cfg.Goroutines = true
 		case a == "--vtime":
